@@ -94,8 +94,9 @@ ExpTerm(t, g) ==
   IF t.k = "grp"
   THEN [k |-> "set", v |-> IF t.v \in DOMAIN g THEN g[t.v].m ELSE {"?missing:" \o t.v}]
   ELSE [k |-> t.k, v |-> {t.v}]
+ExpSvc(v, g) == IF v \in SvcGroupNames THEN (IF v \in DOMAIN g THEN g[v].m ELSE {"?missing:" \o v}) ELSE {v}
 ExpAce(a, g) == [act |-> a.act, src |-> ExpTerm(a.src, g), dst |-> ExpTerm(a.dst, g),
-                 svc |-> a.svc, log |-> a.log]
+                 svc |-> ExpSvc(a.svc, g), log |-> a.log]
 ExpAcl(s, g) == [i \in DOMAIN s |-> ExpAce(s[i], g)]
 
 TAcl == AclOf(T)   TGrp == GrpOf(T)   TBind == BindOf(T)   TRoute == RouteOf(T)
@@ -116,7 +117,7 @@ Equivalent ==
 -----------------------------------------------------------------------------
 (* Frame (C07): what was outside Netspoc's scope in the initial device     *)
 
-BaseNames == {"inside_in", "outside_in", "dmz_in", "g0", "g1", "g2", "foreign", "gx"}
+BaseNames == {"inside_in", "outside_in", "dmz_in", "g0", "g1", "g2", "foreign", "gx", "sg0", "sg1"}
 GeneratedNames == {b \o "-DRC-" \o i : b \in BaseNames, i \in {"0", "1", "2", "3"}}
 IsGenerated(n) == n \in GeneratedNames
 
